@@ -54,7 +54,7 @@ theorem ackInv_sendMessage (e : Ep) (m : Msg) (hi : AckInv e) (hm : ackOK e.rxLo
     AckInv (sendMessage e m) := by
   unfold AckInv at *
   intro x hx
-  simp only [sendMessage, kaReset, idleReset, List.mem_append, List.mem_singleton] at hx
+  simp only [sendMessage, sendReady, kaReset, idleReset, List.mem_append, List.mem_singleton] at hx
   rcases hx with hx | hx
   · exact hi x hx
   · subst hx; exact hm
@@ -116,7 +116,7 @@ theorem ackInv_writeConn (e : Ep) (n : Nat) (up : Bool) (hi : AckInv e) : AckInv
     · exact hi
   · simp only []
     split
-    · exact ackInv_of_view (av_doClose e) hi
+    · exact hi
     · split
       · exact ackInv_of_view (by rw [av_checkSessTerm]; rfl) hi
       · exact ackInv_of_view rfl hi
@@ -169,7 +169,7 @@ theorem ackInv_segAccept (e : Ep) (flags tid : Nat) (cur data : Bytes) (o1 : Lis
     refine ackInv_of_view (e := { sendMessage e (.xferAck flags tid (cur ++ data).length) with
         rxLog := e.rxLog ++ [(tid, cur ++ data)] }) (by rw [av_checkSessTerm]; rfl) ?_
     intro m hm
-    simp only [sendMessage, kaReset, idleReset, List.mem_append, List.mem_singleton] at hm
+    simp only [sendMessage, sendReady, kaReset, idleReset, List.mem_append, List.mem_singleton] at hm
     rcases hm with hm | hm
     · exact ackOK_mono _ (hi m hm)
     · subst hm
@@ -297,7 +297,9 @@ theorem ackInv_step (e : Ep) (ev : Ev) (hi : AckInv e) : AckInv (step e ev).1 :=
     simp only []
     split
     · exact hi
-    · exact ackInv_pump _ _ hi
+    · split
+      · exact hi
+      · exact ackInv_of_view rfl (ackInv_pump _ _ (ackInv_of_view (e := e) rfl hi))
   | rx c =>
     simp only []
     split
